@@ -34,8 +34,8 @@ def main(argv):
             from common import REPO
             tb = traceback.extract_tb(e.__traceback__)
             impl_frames = [f for f in tb if os.path.abspath(f.filename).startswith(str(REPO) + os.sep)]
-            if not impl_frames or not os.path.abspath(tb[-1].filename).startswith((str(REPO) + os.sep, "/venv/")):
-                raise
+            if not impl_frames:
+                raise          # nothing of the implementation on the stack: a harness/tool failure (exit 2)
             run.prop_fail("the implementation raised an exception on an input the property quantifies over",
                           {"exception": repr(e), "where": [f"{f.filename}:{f.lineno} {f.name}" for f in impl_frames[-3:]],
                            "harness_frame": next((f"{f.filename}:{f.lineno}" for f in reversed(tb) if "/verif/harness/" in f.filename), "")},
